@@ -5,7 +5,7 @@ from oracle_util import *  # noqa
 from protocol import from_real
 
 ID = "C08"
-LEAN_MODULE = "SCoda.Props.C08"
+LEAN_MODULE = ["SCoda.Props.C08", "SCoda.Props.Purity", "SCoda.Props.C16b"]
 CLAUSES = [
     ("at most one piece more than capacities; no piece is empty; the loop always terminates", ["SCoda.C08.count", "SCoda.C08.nonempty", "SCoda.C08.split_total"]),
     ("every piece except the last lasts exactly its capacity", ["SCoda.C08.exact"]),
@@ -16,7 +16,10 @@ CLAUSES = [
     ("cut notes are re-struck with the same velocity", ["SCoda.C08.velocity"]),
     ("every non-note event at its original tick (partial: outside the final-boundary class — known finding D8; in general a sublist)",
      ["SCoda.C08.others_partial", "SCoda.C08.others_sublist", "SCoda.C08.split_drops_final_boundary_event"]),
-    ("the source sequence is not changed: immediate in the functional model; aliasing is C16 (identity harness)", ["SCoda.C08.split_total"]),
+    ("the source sequence is not changed: no write site of RelativeSequence.split / Sequence.split acts on an object that existed before the call "
+     "(purity typing over facts regenerated from the source, kernel-checked certificate) and the pieces are fresh (C16b); in the value model the "
+     "source is an immutable argument; observed on the real objects by the oracle's `pure` clause from five wrapper states",
+     ["SCoda.Purity.purity_cert_closed", "SCoda.Purity.routes_write_nothing_shared", "SCoda.Purity.purity_routes_seen", "SCoda.C16.derivations_return_fresh"]),
 ]
 LEVEL = "proof"
 RULE = ("well-formed multi-channel sequences (<=6 notes, 2-3 channels, notes spanning several boundaries, events exactly on "
